@@ -494,6 +494,10 @@ def assemble(unit, canary=False, mutant=None, check_fp=True):
             if c.get("rename"):
                 # inside the closure head the parameter names shadow everything else, so a whole-word rename is exact
                 rn = c["rename"]
+                # the head's own result binder `-> (name: T)` must not collide with a new parameter name
+                mb = re.search(r"->\s*\(\s*([A-Za-z_][A-Za-z0-9_]*)\s*:", head)
+                if mb and mb.group(1) in rn.values() and mb.group(1) not in rn:
+                    head = re.sub(r"\b" + re.escape(mb.group(1)) + r"\b", "__res", head)
                 head = re.sub(r"\b(" + "|".join(re.escape(q) for q in rn) + r")\b", lambda mm: rn[mm.group(1)], head)
             tags = [tg for _, t in c["lines"] for tg in parse_tags(t)]
             org = dict(org_base, kind="closure", k=k, line=c["lines"][0][0] if c["lines"] else it.line, tags=tags)
